@@ -407,7 +407,14 @@ class Machine:
                 sel[p] = False
         if not sim and "nugget" not in sel and t["nugget"] == 0.0 and rng.random() < 0.5:
             sel["nugget"] = False
+        # explicit "True" flags (documented: parameters are fitted by default, True is allowed)
+        for p in names:
+            if p not in sel and rng.random() < 0.15:
+                sel[p] = True
         kw["select"] = sel
+        order = sorted(sel)
+        rng.shuffle(order)
+        kw["select_order"] = order  # keyword order of the call (JSON would sort the keys)
         r = rng.random()
         if r < 0.45:
             kw["sill"] = None
@@ -449,7 +456,10 @@ class Machine:
         m = self.model
         kw = op["kwargs"]
         t = self.cfg["true"]
-        sel = {k: v for k, v in kw.get("select", {}).items()
+        raw_sel = kw.get("select", {})
+        order = [k for k in kw.get("select_order", []) if k in raw_sel] + \
+                [k for k in sorted(raw_sel) if k not in kw.get("select_order", [])]
+        sel = {k: raw_sel[k] for k in order
                if k in ("var", "len_scale", "nugget") or k in m.opt_arg}
         kw = dict(kw, select=sel)
         op_local = dict(op, kwargs=kw)
